@@ -420,6 +420,56 @@ def hl_correspondence(ctx, rng):
     return meta, n_ok, bad, errors
 
 
+def ob_correspondence(ctx, rng):
+    """model/OnionBordas.v (Q instance, vm_compute) against onion_bordas_transform(shift_grid=False), with the
+    tables val1 / val2 read out of the running frame."""
+    import abel.onion_bordas as ob
+    sizes = (1, 2, 3, 5, 8) if ctx.quick else (1, 2, 3, 4, 5, 8, 11, 14)
+    drs = (1.0, 0.5, 2.5) if ctx.quick else (1.0, 0.5, 2.5, 0.125, 7.0)
+    files, meta = [], []
+    k = 0
+    for cols in sizes:
+        defs, cases = [], []
+        for dr in drs:
+            for rows in sorted(set((1, int(rng.integers(2, 5))))):
+                im = rng.integers(-8, 9, size=(rows, cols)).astype(float)
+                if rng.random() < 0.3:
+                    im = im / 4.0
+                arg = im[0] if (rows == 1 and rng.random() < 0.5) else im
+                out, got = ac.capture_locals('onion_bordas_transform', 'onion_bordas.py', ['val1', 'val2'],
+                                             lambda: ob.onion_bordas_transform(arg, dr=dr, direction='inverse', shift_grid=False))
+                if not all(x in got for x in ('val1', 'val2')):
+                    raise RuntimeError('onion_bordas_transform: the tables val1/val2 are not local variables any more')
+                tn = 'tabs_%d' % len(defs)
+                defs.append('Definition %s_1 : list (list Q) := %s.\nDefinition %s_2 : list (list Q) := %s.' % (
+                    tn, vlib.list_lit([vlib.list_lit([hexq(v) for v in r]) for r in np.atleast_2d(got['val1'])]),
+                    tn, vlib.list_lit([vlib.list_lit([hexq(v) for v in r]) for r in np.atleast_2d(got['val2'])])))
+                cases.append('{| o_dr := %s; o_val1 := %s_1; o_val2 := %s_2; o_im := %s; o_expect := %s |}'
+                             % (hexq(dr), tn, tn,
+                                vlib.list_lit([vlib.list_lit([hexq(v) for v in r]) for r in im]),
+                                vlib.list_lit([vlib.list_lit([hexq(v) for v in r]) for r in A2(out)])))
+                meta.append(dict(cols=cols, rows=rows, dr=dr, one_d=bool(arg.ndim == 1)))
+        text = (vlib.HEADER_CASES + 'From PA Require Import base.QClose model.OnionBordas model.OnionBordasQ.\nOpen Scope Q_scope.\n'
+                + '\n'.join(defs) + '\nDefinition cases : list ob_case := %s.\nDefinition res := map ob_check cases.\n'
+                'Eval vm_compute in (count_true res, false_idx 0 res).\n' % vlib.list_lit(cases))
+        files.append(('C04_ob_%03d' % k, text, len(cases)))
+        k += 1
+    outs = vlib.coq_eval_many([(n, t) for n, t, _ in files])
+    n_ok, bad, errors = 0, [], []
+    base = 0
+    for name, _, cnt in files:
+        rc, out = outs[name]
+        r = vlib.parse_eval_lists(out)
+        m = re.match(r'\((\d+), (.*)\)$', r[0]) if (rc == 0 and r) else None
+        if not m:
+            errors.append((name, out[-400:]))
+        else:
+            n_ok += int(m.group(1))
+            bad += [base + i for i in vlib.parse_nat_list(m.group(2))]
+        base += cnt
+    return meta, n_ok, bad, errors
+
+
 # ---------------------------------------------------------------------------
 # search
 # ---------------------------------------------------------------------------
@@ -606,6 +656,8 @@ def run(ctx):
         'that dr is used nowhere else)',
         'Hansen-Law tables phi/B0/B1 are arbitrary in the theorems and read from the running implementation in the correspondence; '
         'the Q instance of the model rounds each operation to 120 significant bits (model/HansenLawQ.v)',
+        'onion_bordas tables val1/val2 are arbitrary in the theorems and read from the running implementation in the correspondence; '
+        'the Q instance rounds each operation to 120 significant bits (model/OnionBordasQ.v)',
         'scipy.ndimage shift/rotate/map_coordinates (onion_bordas shift_grid, linbasex, fractional centring) are assumed linear '
         '(validated numerically only)'])
     tv_n, tv_fail = (0, [])
@@ -616,7 +668,14 @@ def run(ctx):
         hl_meta, hl_ok, hl_bad, hl_err = hl_correspondence(ctx, rng)
     except Exception as ex:     # noqa
         hl_err = [('harness', '%s: %s' % (type(ex).__name__, ex))]
-    ctx.cov.update(traces_validated_against_impl=tv_n + hl_ok, translation_validation_failures=len(tv_fail),
+    ob_meta, ob_ok, ob_bad, ob_err = [], 0, [], []
+    try:
+        ob_meta, ob_ok, ob_bad, ob_err = ob_correspondence(ctx, rng)
+    except Exception as ex:     # noqa
+        ob_err = [('harness', '%s: %s' % (type(ex).__name__, ex))]
+    ctx.cov.update(onion_bordas_correspondence_cases=len(ob_meta), onion_bordas_correspondence_disagreements=len(ob_bad),
+                   onion_bordas_model_cases_vm_compute=ob_ok)
+    ctx.cov.update(traces_validated_against_impl=tv_n + hl_ok + ob_ok, translation_validation_failures=len(tv_fail),
                    hansenlaw_correspondence_cases=len(hl_meta), hansenlaw_correspondence_disagreements=len(hl_bad),
                    generated_definitions=0 if em is None else len(em.index))
     # proof obligations = theorems of props/C04.v; the numeric validation of the generated terms and the
@@ -625,9 +684,9 @@ def run(ctx):
     ctx.cov['discharged'] = pr['discharged']
     ctx.cov['generated_terms_validated_numerically'] = tv_n - len(tv_fail)
     ctx.cov['hansenlaw_model_cases_vm_compute'] = hl_ok
-    broken = (not pr['ok']) or bool(terr) or bool(tv_fail) or bool(hl_bad) or bool(hl_err)
+    broken = (not pr['ok']) or bool(terr) or bool(tv_fail) or bool(hl_bad) or bool(hl_err) or bool(ob_bad) or bool(ob_err)
     hits, n_eval, n_distinct, worst, samples = search(ctx, rng, enlarged=broken)
-    ctx.cov.update(evaluations=n_eval + tv_n + len(hl_meta), distinct_nontrivial=n_distinct, exhaustive=False,
+    ctx.cov.update(evaluations=n_eval + tv_n + len(hl_meta) + len(ob_meta), distinct_nontrivial=n_distinct, exhaustive=False,
                    rule='a case is distinct by (operator family = method x direction x option set, size, clause); clauses: operator '
                         '(T(X) = X.A with A extracted from the unit rows), linear (a,b of both signs), rows (permute / duplicate / replace / '
                         'delete / flip other rows), near-rows (neighbouring rows differing by 1e-6 / 1e-9 relative are transformed independently), dr (0.25, 2.5[, 0.7]; '
@@ -663,7 +722,18 @@ def run(ctx):
                 detail += ' errors: %r' % (hl_err[:1],)
             ctx.report_broken('correspondence', 'model/HansenLaw.v vs abel/hansenlaw.py (%d of %d cases disagree)'
                               % (len(hl_bad), len(hl_meta)), detail)
+        elif ob_bad or ob_err:
+            detail = ''
+            if ob_bad:
+                detail = 'first disagreeing case: %r' % (ob_meta[ob_bad[0]],)
+            if ob_err:
+                detail += ' errors: %r' % (ob_err[:1],)
+            ctx.report_broken('correspondence', 'model/OnionBordas.v vs abel/onion_bordas.py (%d of %d cases disagree)'
+                              % (len(ob_bad), len(ob_meta)), detail)
     ctx.assumptions += [
+        'THEOREMS: onion_bordas: the actual peeling loop with arbitrary tables val1/val2 is linear, row-wise (val2 constant along its row '
+        'index: checked on the running tables) and scales with 1/dr (reals; model/OnionBordas.v tied by vm_compute correspondence with '
+        'shift_grid=False and by the generated dr site)',
         'THEOREMS: matrix class (basex, daun incl. Tikhonov variants, onion_peeling, two_point, three_point, rbasex per angular order) is '
         'X -> X.A for the generated expressions, hence linear and row independent (any field); hansenlaw: the actual recursion with '
         'arbitrary tables is linear, row-wise, and scales with dr^(+-1) (reals); dr for daun/basex/dasch from the generated Jacobian '
